@@ -4,6 +4,7 @@ import MdwModel.Model.Regs
 import MdwModel.Model.Maps
 import MdwModel.Model.Stack
 import MdwModel.Model.Gather
+import MdwModel.Model.System
 import MdwModel.Generated.Source
 namespace Mdw.Drv.LiveProps
 open Mdw Mdw.Drv Mdw.Drv.Live
@@ -358,13 +359,31 @@ def ipWindow (ms : List Mapping) (ip : Nat) : Option (Nat × Nat) :=
     some (lo, hi - lo)
   | none => none
 
+/-- the target's memory as the reader model sees it: pages mapped / readable as the memory map says, bytes from the
+    snapshot (0 where it does not reach: bytes are only compared where it does) -/
+def liveMem (lc : LiveCase) : TMem :=
+  { pageSize := 4096,
+    page := fun p => (lc.maps.find? (fun l => l.s ≤ p * 4096 && p * 4096 < l.e)).map (fun l => l.perms.testBit 0),
+    byte := fun a => (memAt lc.mem a).getD 0 }
+
+/-- `copy_from_process` as the model has it, for a dumper that may use every strategy / PTRACE_PEEKDATA only -/
+def liveCopy (lc : LiveCase) (ptraceOnly : Bool) (a n : Nat) : Option Bytes :=
+  if n = 0 then none else if ptraceOnly then ptraceRead (liveMem lc) a n else copyFromProcess (liveMem lc) a n
+
 /-- C07 on a real dump -/
 def runLive07 (kv : List (String × String)) : IO Res := do
   let lc ← match ← loadLive kv with
     | .ok l => pure l
     | .error e => return .bad e
   let mut tags := cfgTags lc.cfg
-  if lc.result != "ok" then return .ok ("dump.failed" :: tags)
+  -- what the model of the application-memory writer (Model/System.lean: every region copied by the reader model; a copy
+  -- that cannot be made aborts the request; what is recorded is what was copied) says about this request
+  let modelApp := lc.cfg.app.map (fun (p, l) => (p, l, liveCopy lc (get kv "readmode" == some "ptrace") p l))
+  if lc.result != "ok" then
+    if modelApp.any (fun (_, _, c) => c.isNone) then tags := "app.uncopyable" :: tags
+    return .ok ("dump.failed" :: tags)
+  if let some (p, l, _) := modelApp.find? (fun (_, _, c) => c.isNone) then
+    return .mismatch s!"application region ({p},{l}) cannot be copied according to the reader model, but the request succeeded" tags
   let some d := findStream lc.dir ST_MEMORY_LIST | return .propfail "no memory list" tags
   let some ml := decodeMemoryList lc.img d | return .propfail "memory list unreadable" tags
   let stackStarts := lc.threads.filter (fun t => t.stackSize > 0) |>.map (fun t => (t.stackStart, t.stackSize, t.stackRva))
@@ -398,6 +417,13 @@ def runLive07 (kv : List (String × String)) : IO Res := do
         a := min (p + l) ((a / 4096 + 1) * 4096)
       return a - p
     if l % 8 != 0 then tags := "app.partialword" :: tags
+    -- … which is what the reader model yields
+    match (modelApp.find? (fun (p', l0, _) => p' == p && l0 == l)).bind (·.2.2) with
+    | some b =>
+      if b.length != l' then
+        return .mismatch s!"application region ({p},{l}): the reader model copies {b.length} bytes, the page-wise rule {l'}" tags
+      tags := "app.model" :: tags
+    | none => pure ()
     if l' < l then tags := "app.short" :: tags
     if !ml.any (fun m => m.start == p && m.size == l') then
       return .propfail s!"application region ({p},{l}) is not in the memory list with that address and {if l' < l then s!"its readable length {l'}" else "length"}" tags
@@ -424,6 +450,14 @@ def runLive07 (kv : List (String × String)) : IO Res := do
             ((List.range len0).find? (fun k => !readableAt (lo + k))).getD len0
           else len0
         if len < len0 then tags := "ipwindow.short" :: tags
+        -- … which is what the reader model yields for the window (`gatherWindow`, Model/Gather.lean)
+        match gatherWindow ⟨ms, 4096, liveCopy lc ptraceOnly⟩ ip with
+        | .ok (some (wlo, wb)) =>
+          if (wlo, wb.length) != (lo, len) then
+            return .mismatch s!"window around {ip}: the gathering model records [{wlo},+{wb.length}), the page-wise rule [{lo},+{len})" tags
+          tags := "ipwindow.model" :: tags
+        | .ok none => return .mismatch s!"window around {ip}: the gathering model records none, the window rule [{lo},+{len0})" tags
+        | _ => return .mismatch s!"window around {ip}: the gathering model says the read fails, but the request succeeded" tags
         if !ml.any (fun m => m.start == lo && m.size == len) then
           return .propfail s!"no memory region [{lo},+{len}) around the crash instruction pointer {ip}" tags
       | none => tags := "ip.unmapped" :: tags
